@@ -22,16 +22,16 @@ ASSUMPTIONS = ["ProjectQ MEASURE is documented as dropped on import and is exclu
                "non-variational; ProjectQ text carries numeric parameters only",
                "OpenQASM / qiskit / braket / pennylane / projectq-operator conversions need packages that are not installed"]
 ANCHORS = [
-    ("tangelo/linq/translator/translate_json_ionq.py", "27-46", "IonQ gate-name dictionary"),
-    ("tangelo/linq/translator/translate_json_ionq.py", "49-79", "IonQ writer"),
-    ("tangelo/linq/translator/translate_json_ionq.py", "82-117", "IonQ parser"),
-    ("tangelo/linq/translator/translate_projectq.py", "31-45", "ProjectQ gate-name dictionary"),
-    ("tangelo/linq/translator/translate_projectq.py", "48-77", "ProjectQ writer"),
-    ("tangelo/linq/translator/translate_projectq.py", "80-127", "ProjectQ parser"),
-    ("tangelo/linq/gate.py", "132-146", "repr intended to be eval-able"),
-    ("tangelo/linq/translator/translate_cirq.py", "157-196", "operator conversion to/from cirq"),
+    ("tangelo/linq/translator/translate_json_ionq.py", "get_ionq_gates", "IonQ gate-name dictionary"),
+    ("tangelo/linq/translator/translate_json_ionq.py", "translate_c_to_json_ionq", "IonQ writer"),
+    ("tangelo/linq/translator/translate_json_ionq.py", "translate_c_from_json_ionq", "IonQ parser"),
+    ("tangelo/linq/translator/translate_projectq.py", "get_projectq_gates", "ProjectQ gate-name dictionary"),
+    ("tangelo/linq/translator/translate_projectq.py", "translate_c_to_projectq", "ProjectQ writer"),
+    ("tangelo/linq/translator/translate_projectq.py", "translate_c_from_projectq", "ProjectQ parser"),
+    ("tangelo/linq/gate.py", "__repr__", "repr intended to be eval-able"),
+    ("tangelo/linq/translator/translate_cirq.py", "translate_op_to_cirq,translate_op_from_cirq", "operator conversion to/from cirq"),
 ]
-REQUIRED = {"ionq_round_trip": 100, "projectq_round_trip": 100, "unsupported_gate_refused": 10, "repr_eval": 200, "operator_round_trip": 60}
+REQUIRED = {"ionq_round_trip": 96, "projectq_round_trip": 96, "unsupported_gate_refused": 5, "repr_eval": 179, "operator_round_trip": 51}
 BUDGET = {"quick": 200, "thorough": 1800}
 
 IONQ = ["H", "X", "Y", "Z", "S", "T", "RX", "RY", "RZ", "PHASE", "SWAP", "XX", "CRX", "CRY", "CRZ", "CX", "CY", "CZ", "CNOT", "CPHASE"]
